@@ -141,6 +141,14 @@ def run(ctx):
         if 'inline ' not in s_:
             s_ = s_.replace('unsigned char next()', 'inline unsigned char next()')
         srcs['r%d' % i] = {'inl': s_, 'sub': s_, 'out': s_.replace('inline ', '')}
+    # the fixed enumeration of call-result shapes (tools/lib/gen_c.py, family D), with and without inlining
+    from lib.gen_c import directed_programs
+    for k, p_ in directed_programs().items():
+        if k.startswith('D_'):
+            s_in = p_.source()
+            if 'inline ' not in s_in:
+                s_in = s_in.replace('unsigned char cnt()', 'inline unsigned char cnt()').replace('unsigned char wrap()', 'inline unsigned char wrap()')
+            srcs['d' + k] = {'inl': s_in, 'sub': s_in, 'out': s_in.replace('inline ', '')}
     # nested inlining, each level expanded several times
     for i in range(60 if quick else 1500):
         s = nested_inline_program(rng)
